@@ -213,3 +213,148 @@ def instr_shapes(tier, seed, props, only=None):
         wide = any(w in sid for w in ('arg48', 'arg64', 'arg33'))
         S.append(InstrShape(sid, config=cfg, stmt=stmt, props=list(props), expect=expect, width=96 if wide else 48))
     return S
+
+
+# ---------------------------------------------------------------------------------------------------------------------
+# seeded random ISA structures (structural breadth; every numeric leaf still symbolic)
+# ---------------------------------------------------------------------------------------------------------------------
+def _rand_operand(rnd, kind, tag, k):
+    """-> (operand config, text, use-dict fragment, consts) for operand position k"""
+    v = f'v{k}'
+    pos = rnd.choice([None, None, 'prefix', 'suffix'])
+    csz = rnd.randint(1, 6)
+    bc = lambda: code(f'{tag}_c', csz, pos)  # noqa
+    asz = rnd.choice([3, 4, 5, 8, 8, 12, 16, 16, 24, 7, 9])
+    al = rnd.random() < 0.6
+    en = rnd.choice([None, 'big', 'little'])
+    a = lambda **kw: arg(asz, al, en, **kw)  # noqa
+    if kind == 'numeric':
+        od = {'type': 'numeric', 'argument': a()}
+        if rnd.random() < 0.7:
+            od['bytecode'] = bc()
+        return od, v, {'val': V(v)}, {v: vrange(asz)}
+    if kind == 'indirect_numeric':
+        return {'type': 'indirect_numeric', 'bytecode': bc(), 'argument': a()}, f'[{v}]', {'val': V(v)}, {v: vrange(asz)}
+    if kind == 'deferred_numeric':
+        return {'type': 'deferred_numeric', 'bytecode': bc(), 'argument': a()}, f'[[ {v} ]]', {'val': V(v)}, {v: vrange(asz)}
+    if kind == 'register':
+        r = rnd.choice(['ra', 'rb'])
+        return {'type': 'register', 'register': r, 'bytecode': bc()}, r, {}, {}
+    if kind == 'indirect_register':
+        r = rnd.choice(['sp', 'ix'])
+        od = {'type': 'indirect_register', 'register': r, 'bytecode': bc()}
+        if rnd.random() < 0.6:
+            osz = rnd.choice([4, 8, 12, 16])
+            od['offset'] = {'size': osz, 'byte_align': rnd.random() < 0.6}
+            if rnd.random() < 0.5:
+                od['offset']['endian'] = rnd.choice(['big', 'little'])
+            form = rnd.choice(['plus', 'minus', 'none'])
+            if form == 'plus':
+                return od, f'[{r} + {v}]', {'val': V(v)}, {v: vrange(osz)}
+            if form == 'minus':
+                return od, f'[{r}-{v}]', {'val': ('neg', V(v))}, {v: vrange(osz)}
+            return od, f'[{r}]', {'val': ('c', 0)}, {}
+        return od, f'[ {r} ]', {}, {}
+    if kind == 'enumeration':
+        keys = ['eq', 'ne', 'gt']
+        key = rnd.choice(keys)
+        od = {'type': 'enumeration', 'argument': {'size': asz, 'byte_align': al, 'value_dict': {
+            q: Sym(f'{tag}_a_{q}', 0, (1 << asz) - 1) for q in keys}}}
+        if rnd.random() < 0.6:
+            od['bytecode'] = {'size': csz, 'value_dict': {q: Sym(f'{tag}_b_{q}', 0, (1 << csz) - 1) for q in keys}}
+            if pos:
+                od['bytecode']['position'] = pos
+        return od, key, {'key': key}, {}
+    if kind == 'numeric_enumeration':
+        keys = rnd.sample([0, 1, 2, 4, 8, 16, 255], 3)
+        od = {'type': 'numeric_enumeration', 'bytecode': {'size': csz, 'value_dict': {
+            q: Sym(f'{tag}_n_{q}', 0, (1 << csz) - 1) for q in keys}}}
+        if pos:
+            od['bytecode']['position'] = pos
+        return od, v, {'val': V(v)}, {v: (-2, 260)}
+    if kind == 'numeric_bytecode':
+        od = {'type': 'numeric_bytecode', 'bytecode': {'size': csz, 'min': Sym(f'{tag}_min', -3, 2), 'max': Sym(f'{tag}_max', 2, 70)}}
+        if pos:
+            od['bytecode']['position'] = pos
+        return od, f'{v} + 1', {'val': ('+', V(v), ('c', 1))}, {v: (-8, 80)}
+    if kind == 'address':
+        od = {'type': 'address', 'argument': arg(rnd.choice([16, 16, 24]), al, en)}
+        if rnd.random() < 0.5:
+            od['bytecode'] = bc()
+        if rnd.random() < 0.4:
+            od['argument'] = arg(rnd.choice([8, 12]), al, en, slice_lsb=True, match_address_msb=True)
+        return od, v, {'val': V(v)}, {v: (-4, 0x10004)}
+    if kind == 'relative_address':
+        rsz = rnd.choice([8, 8, 12, 16])
+        lim = 1 << (rsz - 1)
+        od = {'type': 'relative_address', 'argument': arg(rsz, al, en, min=Sym(f'{tag}_rmin', -lim, -lim + 8), max=Sym(f'{tag}_rmax', lim - 9, lim - 1))}
+        if rnd.random() < 0.5:
+            od['offset_from_instruction_end'] = True
+        if rnd.random() < 0.4:
+            od['bytecode'] = bc()
+        brace = rnd.random() < 0.3
+        if brace:
+            od['use_curly_braces'] = True
+        txt = f'o0 + {v}'
+        return od, ('{' + txt + '}') if brace else txt, {'val': ('+', V('o0'), V(v))}, {v: (-lim - 6, lim + 6)}
+    raise ValueError(kind)
+
+
+KIND_GROUPS = [['numeric', 'address', 'relative_address', 'numeric_bytecode', 'numeric_enumeration'],   # at most one per set
+               ['indirect_numeric'], ['deferred_numeric'], ['register'], ['indirect_register'], ['enumeration']]
+
+
+def random_isa(rnd, idx):
+    n_ops = rnd.choice([0, 1, 1, 2, 2, 3])
+    osets, uses, texts, consts = {}, [], [], {}
+    for k in range(1, n_ops + 1):
+        groups = rnd.sample(KIND_GROUPS, rnd.randint(1, 3))
+        members = {}
+        chosen = None
+        for gi, g in enumerate(groups):
+            kind = rnd.choice(g)
+            od, text, use, cs = _rand_operand(rnd, kind, f's{k}m{gi}', k)
+            members[f'm{gi}'] = od
+            if chosen is None or rnd.random() < 0.4:
+                chosen = (f'm{gi}', text, use, cs)
+        # registers used twice in one set would be ambiguous: keep the first
+        seen_regs = set()
+        for mid in list(members):
+            od = members[mid]
+            if od['type'] in ('register', 'indirect_register'):
+                keyr = (od['type'], od['register'])
+                if keyr in seen_regs and mid != chosen[0]:
+                    del members[mid]
+                seen_regs.add(keyr)
+        osets[f'set{k}'] = {'operand_values': members}
+        u = {'set': f'set{k}', 'id': chosen[0]}
+        u.update(chosen[2])
+        uses.append(u)
+        texts.append(chosen[1])
+        consts.update(chosen[3])
+    osz = rnd.choice([3, 4, 5, 8, 8, 8, 12, 16])
+    bc = code('op', osz)
+    if rnd.random() < 0.3:
+        bc['endian'] = rnd.choice(['big', 'little'])
+    if rnd.random() < 0.3:
+        bc['suffix'] = code('sfx', rnd.randint(1, 8))
+    ins = {'bytecode': bc}
+    if n_ops:
+        ops = {'count': n_ops, 'operand_sets': {'list': [f'set{k}' for k in range(1, n_ops + 1)]}}
+        if rnd.random() < 0.35:
+            ops['operand_sets']['reverse_argument_order'] = True
+        if rnd.random() < 0.35:
+            ops['operand_sets']['reverse_bytecode_order'] = True
+        ins['operands'] = ops
+    cfg = isa(general={'endian': rnd.choice(['big', 'little'])}, operand_sets=osets, instructions={'xop': ins}, consts=consts)
+    stmt = {'mnemonic': 'xop', 'text': 'xop ' + ', '.join(texts) if texts else 'xop', 'uses': uses}
+    return f'rndisa:{idx}:{stmt["text"]}', cfg, stmt
+
+
+def random_instr_shapes(tier, seed, props):
+    rnd = random.Random(900 + seed)
+    S = []
+    for i in range(60 if tier == 'quick' else 1500):
+        sid, cfg, stmt = random_isa(rnd, f'{seed}.{i}')
+        S.append(InstrShape(sid, config=cfg, stmt=stmt, props=list(props), expect=[], width=64))
+    return S
